@@ -23,7 +23,7 @@ VERIF = os.path.dirname(os.path.dirname(os.path.abspath(__file__)))
 EVID = os.environ.get("UJVC_EVID") or os.path.join(VERIF, "evidence")
 CONTRACT_MODULES = [
     "retry", "times", "filestore", "stores", "engine", "prepare", "coordinator", "queues", "runphys", "runpath", "rewrite", "stale", "pruning", "system", "plumbing",
-    "argnodes", "gather", "greedy", "tracebacks", "progress", "frames", "kahn", "lemmas", "history", "render",
+    "argnodes", "gather", "greedy", "cycles", "tracebacks", "progress", "frames", "kahn", "lemmas", "history", "render",
 ]
 
 
@@ -100,9 +100,10 @@ DEPENDS = {
     "C05": ["C01", "C04", "C09"],
     "C06": ["C01"],
     "C08": ["C01", "C05", "C06", "C09", "C11"],
-    "C09": ["C01"],
+    "C09": ["C01", "C05"],
+    "C10": ["C06"],
     "C14": ["C09"],
-    "C15": ["C04"],
+    "C15": ["C04", "C07"],
     "C16": ["C01", "C04"],
 }
 
